@@ -8,8 +8,8 @@ A reader is a function body made of
 The index is executed symbolically; reads must be sequential and non-overlapping.  Output per
 reader: a [layout] (gaps become FSkip) and the list of target names of the reads, in order.
 Anything else at a place where a read could hide makes the translator fail closed."""
-import ast, os
-from gen_tables import parse, emit, coq_bytes, TranslatorError, HEADER
+import ast, os, sys
+from gen_tables import parse, emit, coq_bytes, TranslatorError, HEADER, GEN
 
 FMT = {'b': ('FS', 1), 'B': ('FU', 1), 'h': ('FS', 2), 'H': ('FU', 2), 'i': ('FS', 4), 'I': ('FU', 4),
        'l': ('FS', 4), 'L': ('FU', 4)}
@@ -219,33 +219,96 @@ LOOP_BODIES = {'stxt_run': 0, 'fmap_meta': 0, 'cast_image_ext': 0, 'lscr_frb': 0
 # byte offset at which a block body starts (the end of the straight-line part before it)
 BLOCK_START = {'cast_image_ext': 23}
 
-def generate():
+PINNED = os.path.join(os.path.dirname(os.path.abspath(__file__)), 'pinned', 'layouts.json')
+FALLBACKS = os.path.join(GEN, 'fallbacks.json')
+
+def read_one(trees, coqname, path, cls, fn, datanames, total):
+    """-> (layout items, field names) of one reader, from the source text; TranslatorError when the text does not
+    have the straight-line shape the translator understands"""
+    if path not in trees:
+        trees[path] = parse(path)
+    f = find_function(trees[path], cls, fn)
+    if coqname in LOOP_BODIES:
+        loops = [st for st in f.body if isinstance(st, (ast.For, ast.While, ast.If)) and mentions_read(st, datanames)]
+        k = LOOP_BODIES[coqname]
+        if len(loops) <= k:
+            raise TranslatorError('%s.%s: loop number %d reading %s not found' % (cls, fn, k, datanames))
+        idxn = next((n.id for n in ast.walk(loops[k]) if isinstance(n, ast.Name) and n.id in ('indx', 'idx', 'index')), None)
+        fields, end = analyse(f, datanames, start=BLOCK_START.get(coqname, 0), body=loops[k].body, idxname=idxn)
+    else:
+        fields, end = analyse(f, datanames)
+    if not fields:
+        raise TranslatorError('%s.%s: no field reads recognised' % (cls, fn))
+    lay, names, pos = to_layout(fields, fn, base=BLOCK_START.get(coqname, 0))
+    if total is not None:
+        if pos > total:
+            raise TranslatorError('%s.%s reads %d bytes, record has %d' % (cls, fn, pos, total))
+        if pos < total:
+            lay.append('FSkip %d' % (total - pos))
+    return lay, [n if isinstance(n, str) else n.decode('latin-1') for n in names]
+
+def fields_of(lay, names):
+    """{(name, offset, item)} of a layout given as item strings 'FS n' / 'FU n' / 'FSkip n' and the names of its non-skip items"""
+    out = set()
+    off = 0
+    k = 0
+    for it in lay:
+        kind, width = it.split()
+        if kind != 'FSkip':
+            out.add((names[k] if k < len(names) else '?', off, it))
+            k += 1
+        off += int(width)
+    return out
+
+def stopped_early(lay, names, pinned):
+    """the fresh layout has lost field reads: its fields are a proper subset of the pinned ones (same names, offsets,
+    widths and signs for those that are left) - what the translator sees of a reader whose other reads were moved into a
+    helper or a table"""
+    fresh, old = fields_of(lay, names), fields_of(pinned['layout'], pinned['names'])
+    if fresh < old:
+        return True
+    # ... or fewer named reads than before, all of them known names (the offsets the translator assigns to the reads
+    # that are left are then not to be trusted either: it does not see the index move inside the helper)
+    return len(names) < len(pinned['names']) and set(names) < set(pinned['names'])
+
+def generate(pin=False):
+    """One layout per reader.  A reader whose source text the translator cannot follow any more (a rewrite into a
+    table-driven or helper-based form) falls back to the pinned copy of its layout (tie/pinned/layouts.json, written
+    from the unchanged tree by `gen_layouts.py --pin`, never at check time): the tie of that reader is then the
+    correspondence run alone (model and implementation on the same chunks, field by field), and the fallback is listed
+    in coq/Gen/fallbacks.json, which the checks report.  A reader that is not pinned still fails closed."""
+    import json
     out = [HEADER % 'the straight-line field readers listed in tie/gen_layouts.py READERS',
            'From DRX Require Import Py.PyBytes Py.Layout.\n']
+    pinned = json.load(open(PINNED)) if os.path.exists(PINNED) else {}
     trees = {}
+    fallbacks = []
+    fresh = {}
     for coqname, path, cls, fn, datanames, total in READERS + EXTRA_READERS:
-        if path not in trees:
-            trees[path] = parse(path)
-        f = find_function(trees[path], cls, fn)
-        if coqname in LOOP_BODIES:
-            loops = [st for st in f.body if isinstance(st, (ast.For, ast.While, ast.If)) and mentions_read(st, datanames)]
-            k = LOOP_BODIES[coqname]
-            if len(loops) <= k:
-                raise TranslatorError('%s.%s: loop number %d reading %s not found' % (cls, fn, k, datanames))
-            idxn = next((n.id for n in ast.walk(loops[k]) if isinstance(n, ast.Name) and n.id in ('indx', 'idx', 'index')), None)
-            fields, end = analyse(f, datanames, start=BLOCK_START.get(coqname, 0), body=loops[k].body, idxname=idxn)
-        else:
-            fields, end = analyse(f, datanames)
-        if not fields:
-            raise TranslatorError('%s.%s: no field reads recognised' % (cls, fn))
-        lay, names, pos = to_layout(fields, fn, base=BLOCK_START.get(coqname, 0))
-        if total is not None:
-            if pos > total:
-                raise TranslatorError('%s.%s reads %d bytes, record has %d' % (cls, fn, pos, total))
-            if pos < total:
-                lay.append('FSkip %d' % (total - pos))
-        out.append('(* %s %s.%s *)' % (path, cls, fn))
+        try:
+            lay, names = read_one(trees, coqname, path, cls, fn, datanames, total)
+            fresh[coqname] = {'layout': lay, 'names': names}
+            origin = ''
+            if not pin and coqname in pinned and stopped_early(lay, names, pinned[coqname]):
+                # the translator follows the straight-line prefix of a reader; after a rewrite that moves the later
+                # reads into a helper or a table it stops early and would emit a truncated layout
+                raise TranslatorError('%s.%s: only %d of %d field reads are still in straight-line form'
+                                      % (cls, fn, len(names), len(pinned[coqname]['names'])))
+        except (TranslatorError, SyntaxError) as e:
+            if pin or coqname not in pinned:
+                raise TranslatorError(str(e))
+            lay, names = pinned[coqname]['layout'], pinned[coqname]['names']
+            fallbacks.append({'reader': coqname, 'source': '%s %s.%s' % (path, cls, fn), 'why': str(e)})
+            origin = ' -- PINNED COPY: the source text is not in a shape the translator reads (%s)' % str(e).replace('*)', '* )')
+        out.append('(* %s %s.%s%s *)' % (path, cls, fn, origin))
         out.append('Definition %s_layout : layout := [%s].' % (coqname, '; '.join(lay)))
         out.append('Definition %s_names : list (list byte) := [\n  %s].\n' % (
             coqname, ';\n  '.join('%s (* %s *)' % (coq_bytes(n), n) for n in names)))
     emit('Gen_Layouts.v', '\n'.join(out))
+    if pin:
+        os.makedirs(os.path.dirname(PINNED), exist_ok=True)
+        json.dump(fresh, open(PINNED, 'w'), indent=1, sort_keys=True)
+    emit('fallbacks.json', json.dumps(fallbacks, indent=1))
+
+if __name__ == '__main__':
+    generate(pin='--pin' in sys.argv)
